@@ -759,6 +759,31 @@ def recorded_method_names(repo):
                         out[call.func.id].add(fi.name)
                     elif isinstance(a, ast.Constant) and isinstance(a.value, str):
                         out[call.func.id].add(a.value)
+    # names that reach the recording constructors through a helper (a `_record(state, 'process_numeric', ...)` method, a factory of
+    # recording methods called in the class body): every string constant of the module that names a method of the run-time state /
+    # of both coders and appears as a call argument
+    state_methods = set(repo.cls('CoderState').methods) if repo.has_cls('CoderState') else set()
+    coder_methods = set()
+    for cn in ('Decoder', 'Encoder'):
+        if repo.has_cls(cn):
+            names = set()
+            for c in repo.mro(cn):
+                names |= set(c.methods)
+            coder_methods = names if not coder_methods else (coder_methods & names)
+    for node in ast.walk(m.tree):
+        if isinstance(node, ast.Call):
+            if isinstance(node.func, ast.Name) and node.func.id in out:
+                continue
+            for a in list(node.args) + [k.value for k in node.keywords]:
+                if isinstance(a, ast.Constant) and isinstance(a.value, str):
+                    f = node.func
+                    fname = f.id if isinstance(f, ast.Name) else (f.attr if isinstance(f, ast.Attribute) else '')
+                    if fname in ('getattr', 'hasattr', 'format', 'get', 'debug', 'info', 'warning'):
+                        continue
+                    if a.value in state_methods and not a.value.startswith('__'):
+                        out['StateMethodCall'].add(a.value)
+                    elif a.value in coder_methods and a.value.startswith(('process_', 'define_', 'get_value_')):
+                        out['CoderMethodCall'].add(a.value)
     return out
 
 
